@@ -495,6 +495,8 @@ def make_termination(name):
         return T.When(T.ChangeOverGeneration(1e-6, 2))
     if name == 'gnt':
         return T.GradientNormTolerance(1e-3)
+    if name == 'collapse':      # Solve() applies the collapse (fixes the parameter) and goes on
+        return T.Or(T.ChangeOverGeneration(1e-9, 8), T.CollapseAt(None, 1e-3, 3))
     raise ValueError(name)
 
 
